@@ -1728,7 +1728,9 @@ func ExecGroupBy(query *Query, current []any) ([]any, error) {
 		item := grouped[key]
 		current := make(Map)
 		for innerKey, innerValue := range *key {
-			current[innerKey] = innerValue
+			// a grouping column written as a path (alias.column) is read back through that path
+			// by the select list, HAVING and ORDER BY: its value goes where the path leads
+			putAtPath(current, innerKey, innerValue)
 		}
 		current["*"] = item
 		rs, err := ExecHaving(query, current)
@@ -1741,6 +1743,27 @@ func ExecGroupBy(query *Query, current []any) ([]any, error) {
 
 	}
 	return slice, nil
+}
+
+// putAtPath stores value under a dotted path of plain keys, creating the objects on the way;
+// any other selector text is used as the key itself
+func putAtPath(row Map, path string, value any) {
+	keys := strings.Split(path, ".")
+	for _, key := range keys {
+		if len(key) == 0 || strings.ContainsAny(key, "'[]{}()<>=:| ") {
+			row[path] = value
+			return
+		}
+	}
+	for _, key := range keys[:len(keys)-1] {
+		next, ok := row[key].(Map)
+		if !ok {
+			next = make(Map)
+			row[key] = next
+		}
+		row = next
+	}
+	row[keys[len(keys)-1]] = value
 }
 
 func ExecHaving(query *Query, current Map, opts ...ExprOption) (bool, error) {
